@@ -373,6 +373,23 @@ impl<'e, 'd> World<'e, 'd> {
             return None;
         }
         let mut outl = self.load_outl().ok()?;
+        if let Outl::Cff(cff) = &outl {
+            // `seac` names its components by standard-encoding code -> SID -> first glyph
+            // carrying that SID. When a fault makes two glyphs share a SID, which one is
+            // "first" depends on glyph order, so a (legitimately) reordered subset may resolve
+            // a component differently from the source: no relation is claimed for such runs.
+            if let Some(f) = cff.fonts.first() {
+                let n = f.char_strings_index.len().min(65535) as u16;
+                let mut sids = BTreeSet::new();
+                for g in 1..n {
+                    if let Some(sid) = f.charset.id_for_glyph(g) {
+                        if !sids.insert(sid) {
+                            return None;
+                        }
+                    }
+                }
+            }
+        }
         let mut v = Vec::with_capacity(ids.len());
         for g in ids {
             let mut sink = Sink::default();
